@@ -175,6 +175,11 @@ func (c *cdbdriver) GetLocationByMap(ipnet *net.IPNet, mapID []byte, context Con
 		if mask > maxMask {
 			continue
 		}
+		if isv4 && mask < 96 {
+			// prefix lengths below /96 belong to IPv6 subnets (the set may be shared by both families):
+			// an IPv4 client is only ever matched by IPv4 subnets
+			continue
+		}
 		// Finish creating the search key:
 		// "{key_prefix}{ipv6_subnet_bitmap}"
 		currentCIDRMask := cachedCIDRMask[mask]
